@@ -146,6 +146,29 @@ theorem sylvester_embedded_unique (hE : Isometry E) (en : Fin B.d → K) (i j : 
     rw [this, hWeq, hVeq, sub_self]
   rw [hV', sub_eq_zero.mp hD]
 
+theorem proj_idem (hE : Isometry E) : proj E * proj E = proj E := by
+  simp only [proj]
+  calc E * E.conjTranspose * (E * E.conjTranspose) = E * (E.conjTranspose * E) * E.conjTranspose := by simp only [Matrix.mul_assoc]
+    _ = E * E.conjTranspose := by rw [hE.iso, Matrix.mul_one]
+
+/-- **what the direct solver computes.**  It never forms the projected `H_0`: it solves with the *ambient* Hamiltonian `A'` (the operator the user supplied).
+`A'` commutes with the projector (the explicit vectors are eigenvectors) and its compression is the embedded `H_0`; then a solution of the ambient Sylvester
+equation that lies in the range of the projector is a solution of the projected equation — the form `ImplicitSpec.solver_off` asks for. -/
+theorem ambient_to_projected (hE : Isometry E) (A' V' Y' H0' : MatK K B') (hcomm : proj E * A' = A' * proj E)
+    (hcomp : proj E * A' * proj E = H0') (hrange : proj E * V' * proj E = V') (hamb : A' * V' - V' * A' = Y') :
+    H0' * V' - V' * H0' = Y' := by
+  have hPV : proj E * V' = V' := by
+    conv_lhs => rw [← hrange]
+    rw [← Matrix.mul_assoc, ← Matrix.mul_assoc, proj_idem hE, hrange]
+  have hVP : V' * proj E = V' := by
+    conv_lhs => rw [← hrange]
+    rw [Matrix.mul_assoc, proj_idem hE, hrange]
+  have h1 : H0' * V' = A' * V' := by
+    rw [← hcomp, Matrix.mul_assoc, hPV, hcomm, Matrix.mul_assoc, hPV]
+  have h2 : V' * H0' = V' * A' := by
+    rw [← hcomp, ← Matrix.mul_assoc, ← Matrix.mul_assoc, hVP, Matrix.mul_assoc, ← hcomm, ← Matrix.mul_assoc, hVP]
+  rw [h1, h2, hamb]
+
 end Dsl
 end Pyma
 #print axioms Pyma.Dsl.sylvester_embedded_unique
